@@ -49,6 +49,8 @@ func c03Routes(proto string) []routeSpec {
 		{Key: "hole", Cluster: "cl-$P-hole", Extra: jmap{"timeout": "800ms"}},
 		{Key: "holemix", Cluster: "cl-$P-holemix", Extra: jmap{"timeout": "1200ms", "retry_policy": jmap{"retry_on": false, "num_retries": 2}}},
 		{Key: "holemixon", Cluster: "cl-$P-holemix", Extra: jmap{"timeout": "1200ms", "retry_policy": jmap{"retry_on": true, "num_retries": 3}}},
+		// a retrying route into the single-host cluster whose max_requests the storm sets to 3: a retry can find the breaker saturated
+		{Key: "retrylim", Cluster: "cl-$P-lim", Extra: jmap{"timeout": "1500ms", "retry_policy": jmap{"retry_on": true, "retry_timeout": "400ms", "num_retries": 2}}},
 		// global timeout 400 ms, retried on 5xx, no per-try timeout: a 503 that arrives just before the global timeout makes the
 		// timeout fire while the retry is being set up
 		{Key: "edge", Cluster: "cl-$P", Extra: jmap{"timeout": "400ms", "retry_policy": jmap{"retry_on": true, "num_retries": 2}}},
@@ -390,7 +392,12 @@ func c03Steer(c *lab.Ctx) {
 // request context. Every request must still end exactly once, and the process must survive.
 func c03Storm(c *lab.Ctx) {
 	c.Rule("running MOSN; per protocol 16 concurrent clients x retrying routes (with / without per-try timeout) x plans whose first attempts are closed, reset, answered in half or stalled by the upstream (close|ok, rst|rst|ok, half|ok, stall|ok, close|close|ok, s503|close|ok); exactly one terminal outcome per request, the worker process must survive; distinct = (protocol, route, plan, outcome)")
-	e, err := newEngine(c, engineProtos, c03Routes, nil, nil)
+	e, err := newEngine(c, engineProtos, c03Routes, func(name string) jmap {
+		if strings.HasSuffix(name, "-lim") {
+			return jmap{"circuit_breakers": []jmap{{"max_connections": 1000, "max_pending_requests": 1000, "max_requests": 3, "max_retries": 1000}}}
+		}
+		return nil
+	}, nil)
 	if err != nil {
 		c.Require("mosn started", false, err.Error())
 		return
@@ -432,6 +439,37 @@ func c03Storm(c *lab.Ctx) {
 					if ev.Kind == "open" || ev.Kind == "closed" {
 						cl.close()
 					}
+				}
+			}(ci, crng)
+		}
+		wg.Wait()
+	}
+	// second phase: 12 concurrent clients on the retrying route into the cluster with max_requests = 3, requests with bodies whose
+	// first attempts are closed / reset / answered 503 while the others keep the breaker busy: some first attempts are refused
+	// (overflow reply), some RETRIES find the breaker saturated - every one of them still owes the client exactly one reply
+	limPlans := []string{"close|d80:ok", "rst|d80:ok", "s503|d80:ok", "d120:ok", "d80:ok", "close|close|d60:ok", "half|d80:ok"}
+	for _, proto := range engineProtos {
+		var wg sync.WaitGroup
+		for ci := 0; ci < 12; ci++ {
+			wg.Add(1)
+			crng := rng.Fork()
+			go func(ci int, crng *lab.Rand) {
+				defer wg.Done()
+				cl := e.newClient(proto, fmt.Sprintf("%s-storm-lim-%d", proto, ci))
+				defer cl.close()
+				for k := 0; k < c.Pick(25, 150); k++ {
+					cs := c03Case{proto: proto, key: "retrylim", plan: limPlans[crng.Intn(len(limPlans))]}
+					tok := fmt.Sprintf("l%d-%s-%d", c.Batch, proto, atomic.AddInt64(&tokenN, 1))
+					r := reqFor(proto, cs.key, tok, cs.plan)
+					r.Body = crng.Bytes(crng.PickInt(10, 300, 5000))
+					c.Case("storm-lim %s route=%s plan=%s token=%s", proto, cs.key, cs.plan, tok)
+					ev := cl.do(r)
+					c.Eval(1)
+					c03Judge(c, cs, ev, e, "storm-lim")
+					if ev.Kind == "open" || ev.Kind == "closed" {
+						cl.close()
+					}
+					c.Distinct(fmt.Sprintf("storm-lim|%s|%s|%s%d", proto, planClass(cs.plan), ev.Kind, ev.Status))
 				}
 			}(ci, crng)
 		}
